@@ -551,7 +551,7 @@ impl Property for C01 {
         sc.cap_bits = if rng.chance(2) { 1024 } else if rng.chance(30) || sc.knob("arith") == 1 { 192 } else { 96 };
         if sc.cap_bits > 192 {
             // BigNum division is bit-by-bit: ~0.2 s per operation at 700 bits
-            sc.budget = sc.budget.min(200);
+            sc.budget = sc.budget.min(60);
         } else if sc.cap_bits > 96 {
             // ~1 ms per gcd at 2 x 192 bits: long runs only with small values
             sc.budget = sc.budget.min(400);
